@@ -6,8 +6,11 @@
 //!           | ms F H V | mr F H | p F W | df F
 //!   output: per op "<result>[ w<waker>]*[ d<payload>]*" joined by " ; ".
 //!
-//! Every case runs on its own worker thread; an op that does not return within the watchdog
-//! budget is the output `block` and the case is abandoned (thread and objects leaked).
+//! Every case runs on its own worker thread.  A blocking sync `s`/`r` that does not return within the
+//! watchdog budget (30 s; VERIF_RV_WATCHDOG_MS) is the output `block` and the case is abandoned
+//! (thread and objects leaked).  The generator never emits a call that parks and the shrinker's
+//! candidates are sanitised (vlib/engines_rv.py::join), so the budget is a backstop for real hangs
+//! only; no other op is timed.
 //! Every op runs under catch_unwind: a panic is the output `PANIC`.
 //!
 //! Lifetimes: `SendFuture<'a, T>` / `RecvFuture<'a, T>` borrow the `Arc` field of the async handle
@@ -59,7 +62,7 @@ impl Wake for W {
 }
 
 fn watchdog_ms() -> u64 {
-  std::env::var("VERIF_RV_WATCHDOG_MS").ok().and_then(|s| s.parse().ok()).unwrap_or(2000)
+  std::env::var("VERIF_RV_WATCHDOG_MS").ok().and_then(|s| s.parse().ok()).unwrap_or(30000)
 }
 
 macro_rules! mclone {
@@ -134,11 +137,7 @@ macro_rules! flavour {
         let mut i = 3;
         while i < t.len() {
           let opname = t[i];
-          let ar = match opname {
-            "ts" | "s" | "cn" | "mr" | "p" => 3,
-            "ms" => 4,
-            _ => 2,
-          };
+          let ar = arity(opname);
           let a: Vec<u32> = t[i + 1..i + ar].iter().map(|s| num(s)).collect();
           i += ar;
           dlog.lock().unwrap().clear();
@@ -331,9 +330,25 @@ flavour!(spsc, [fibre::spsc::rendezvous], no, no);
 flavour!(mpsc, [fibre::mpsc::rendezvous], yes, no);
 flavour!(mpmc, [fibre::mpmc::rendezvous], yes, yes);
 
+fn arity(op: &str) -> usize {
+  match op {
+    "ts" | "s" | "cn" | "mr" | "p" => 3,
+    "ms" => 4,
+    _ => 2,
+  }
+}
+
 fn run(toks: &[&str]) -> String {
   if toks.len() < 3 {
     return "BADCASE".into();
+  }
+  // which ops may park the calling thread: only the blocking sync forms.  Only those are waited
+  // for under the watchdog budget; every other op cannot block, so no wall-clock enters the result.
+  let mut may_block: Vec<bool> = Vec::new();
+  let mut i = 3;
+  while i < toks.len() {
+    may_block.push(toks[i] == "s" || toks[i] == "r");
+    i += arity(toks[i]);
   }
   let owned: Vec<String> = toks.iter().map(|s| s.to_string()).collect();
   let (tx, rx) = channel::<Option<String>>();
@@ -355,7 +370,13 @@ fn run(toks: &[&str]) -> String {
   let mut outs: Vec<String> = Vec::new();
   let budget = Duration::from_millis(watchdog_ms());
   loop {
-    match rx.recv_timeout(budget) {
+    let k = outs.len();
+    let r = if k < may_block.len() && may_block[k] {
+      rx.recv_timeout(budget)
+    } else {
+      rx.recv().map_err(|_| RecvTimeoutError::Disconnected)
+    };
+    match r {
       Ok(Some(s)) => outs.push(s),
       Ok(None) => break,
       Err(RecvTimeoutError::Timeout) => {
